@@ -72,6 +72,18 @@ def reg_term(top, ch):
         rq, n(ch.q), n(ch.d), opt(ch.e), opt(ch.r), zlit(ch.reset_value))
 
 
+def mem_term(top, ch):
+    """one SynchronousMemory instance as a `meminst` (Model/C01Seq.v): word nets at the first `<path>mem[]`, rreaddata, the port nets"""
+    n = lambda w: nid(top, ch.parent, w)
+    pre = inst_path(top, ch)
+    w, aw = ch.readdata.getWidth(), ch.read_address.getWidth()
+    return ('{| mi_base := fst (N f "%smem[]" %d); mi_aw := %d; mi_rr := (N f "%srreaddata" %d); mi_rd := %s; mi_ra := %s; mi_wa := %s; mi_we := %s; mi_wd := %s |}'
+            % (pre, w, aw, pre, w, n(ch.readdata), n(ch.read_address), n(ch.write_address), n(ch.write), n(ch.writedata)))
+
+
+SEQ = ('Reg', 'SynchronousMemory')       # sequential instances under the composition theorem (C01_seq_vsim_compose_items when a memory is present)
+
+
 class Cover:
     def __init__(self, hw, top):
         py4hw = common.quiet_import()
@@ -84,13 +96,13 @@ class Cover:
         def walk(obj):
             for ch in obj.children.values():
                 cls = type(ch).__name__
-                if cls in inl or cls == 'Reg': emitted.append(ch)
+                if cls in inl or cls in SEQ: emitted.append(ch)
                 elif ch.children: walk(ch)
                 else: raise NotCovered('leaf %s (%s) is neither inlined nor a Reg' % (ch.getFullPath(), cls))
         walk(top)
         for ch in emitted:
             cls = type(ch).__name__
-            if cls != 'Reg' and cls not in COVERED: raise NotCovered('inlined class %s is not a modelled simulator leaf' % cls)
+            if cls not in SEQ and cls not in COVERED: raise NotCovered('inlined class %s is not a modelled simulator leaf' % cls)
         leaves = list(sim.propagatables)
         drivers = list(sim.clockDrivers.items())
         clocked = [x for _, ds in drivers for x in ds.clockables]
@@ -104,7 +116,7 @@ class Cover:
         items, covered_ids = [], set()
         for ch in emitted:
             cls = type(ch).__name__
-            if cls == 'Reg': covered_ids.add(id(ch)); continue
+            if cls in SEQ: covered_ids.add(id(ch)); continue
             if ch.children:
                 sub = below(ch)
                 if any(id(x) not in pos for x in sub): raise NotCovered('macro block %s contains a non-combinational leaf' % cls)
@@ -115,14 +127,18 @@ class Cover:
                 covered_ids.add(id(ch)); items.append((pos[id(ch)], ch))
         if {id(x) for x in leaves} | {id(x) for x in clocked} != covered_ids:
             raise NotCovered('simulator leaves and emitted instances differ')
-        if any(type(x).__name__ != 'Reg' for x in clocked): raise NotCovered('clocked leaf other than Reg')
+        if any(type(x).__name__ not in SEQ for x in clocked): raise NotCovered('clocked leaf other than Reg / SynchronousMemory')
         if len(drivers) > 1 or any(drv.enable is not None for drv, _ in drivers): raise NotCovered('gated or multiple clock drivers')
         items.sort(key=lambda t: t[0])
         leaves = [ch for _, ch in items]
         self.hw, self.top, self.sim = hw, top, sim
         self.leaves, self.regs = leaves, clocked
         self.items = '[' + ';\n    '.join(item_term(top, x) for x in leaves) + ']'
-        self.gs = '[' + ';\n    '.join(reg_term(top, x) for x in clocked) + ']'
+        self.has_mem = any(type(x).__name__ != 'Reg' for x in clocked)
+        if self.has_mem:
+            self.gs = '[' + ';\n    '.join(('SReg %s' % reg_term(top, x)) if type(x).__name__ == 'Reg' else ('SMem %s' % mem_term(top, x)) for x in clocked) + ']'
+        else:
+            self.gs = '[' + ';\n    '.join(reg_term(top, x) for x in clocked) + ']'
         self.ins = [vlog.vname(p.name) for p in top.inPorts]
         self.outs = [vlog.vname(p.name) for p in top.outPorts]
         self.clk = vlog.clock_name(top)
@@ -145,7 +161,20 @@ Definition diag (ps : list prim) (gs : list reginst) (clk : nat) (ins : list nat
    (13%nat, init_ok f gs)].
 Definition failing (l : list (nat * bool)) : list nat := map fst (filter (fun p => negb (snd p)) l).
 '''
-PRELUDE = vlog.PRELUDE + 'From V Require Import Gen.Seq Model.Inline Model.SimKernel Model.Trace Model.C01Prim.\n' + DEFS
+DEFS_S = '''
+Definition diag_s (ps : list prim) (gs : list sinst) (clk : nat) (ins : list nat) (f : flat) : list (nat * bool) :=
+  let priv := flat_map si_priv gs in
+  let all := (map si_buf gs ++ ps)%list in
+  [(1%nat, forallb (fun a => existsb (fun p => existsb (assign_eqb a) (prim_assigns p)) all) (f_assigns f));
+   (2%nat, forallb (fun p => has_assigns f (prim_assigns p)) all);
+   (3%nat, nodup_nat (map (fun p => fst (prim_out p)) all));
+   (4%nat, nodup_nat (map (fun a => lnet (fst a)) (f_assigns f)));
+   (5%nat, forallb (fun p => forallb (nid_ok f) (prim_nids p)) all);
+   (6%nat, no_star f); (7%nat, forallb prim_wf all); (8%nat, pordered all); (9%nat, forallb si_wf gs);
+   (10%nat, forallb (si_nets_ok f) gs); (11%nat, sprocs_match clk (f_procs f) gs); (12%nat, nodup_nat priv);
+   (13%nat, sinit_ok f gs)].
+'''
+PRELUDE = vlog.PRELUDE + 'From V Require Import Gen.Seq Model.Inline Model.SimKernel Model.Trace Model.C01Prim Model.C01Mem Model.C01Seq.\n' + DEFS + DEFS_S
 
 
 def check(tag, cases, with_trace=False):
@@ -173,24 +202,27 @@ def check(tag, cases, with_trace=False):
         body.append('Definition dsg%d : VSyntax.design := %s.' % (i, vparse.cq_design(mods)))
         body.append('Definition its%d (f : flat) : list citem :=\n   %s.' % (i, cv.items))
         body.append('Definition ps%d (f : flat) : list prim := flat_map item_prims (its%d f).' % (i, i))
-        body.append('Definition gs%d (f : flat) : list reginst :=\n   %s.' % (i, cv.gs))
+        S = cv.has_mem          # a memory among the sequential instances: the generalised development (Properties/C01Mem.v, C01_seq_vsim_compose_items)
+        body.append('Definition gs%d (f : flat) : list %s :=\n   %s.' % (i, 'sinst' if S else 'reginst', cv.gs))
         insl = '[' + '; '.join('NI f "%s"' % n for n in cv.ins) + ']'
         clk = 'NI f "%s"' % cv.clk
         steps = b.get('steps') or []
         vsteps = vlog.coq_steps([([(vlog.vname(a), v) for a, v in ins], n) for ins, n in steps])
         outs = '[' + '; '.join('"%s"' % n for n in cv.outs) + ']'
+        privl = ('(flat_map si_priv (gs%d f))' if S else '(map (fun g => fst (rg_rq g)) (gs%d f))') % i
         # side conditions of the end-to-end theorem, decided for this stimulus
         side = ('(match net_index (f_nets f) "%s" 0 with Some c => Nat.eqb c (%s) | None => match gs%d f with nil => true | _ => false end end) '
-                '&& forallb (fun o => negb (mem_nat o (map (fun g => fst (rg_rq g)) (gs%d f)))) (resolve_names f %s) '
-                '&& forallb (fun st => forallb (fun p => mem_nat (net_of f (fst p)) %s) (fst st)) %s' % (cv.clk, clk, i, i, outs, insl, vsteps))
+                '&& forallb (fun o => negb (mem_nat o %s)) (resolve_names f %s) '
+                '&& forallb (fun st => forallb (fun p => mem_nat (net_of f (fst p)) %s) (fst st)) %s' % (cv.clk, clk, i, privl, outs, insl, vsteps))
+        dsg = ('comp_design_items_s f (its%d f) (gs%d f)' if S else 'comp_design_items f (its%d f) (gs%d f)') % (i, i)
+        st0 = ('(map si_st0 (gs%d f)) (si_pokes (gs%d f))' if S else '(reg_st0 (gs%d f)) (reg_pokes (gs%d f))') % (i, i)
         extra = ''
         if with_trace:
             # the kernel design built from the SAME terms, run on the stimulus: its observable trace must be the real simulator's
             extra = (', map (fun s => (map (rd (vals s)) (resolve_names f %s), forallb (fun b => negb (Z.eqb (rd (vals s) b) 0)) (div_nets (ps%d f)))) '
-                     '(run_states (comp_design_items f (its%d f) (gs%d f)) '
-                     '(init_poked (comp_design_items f (its%d f) (gs%d f)) (reg_st0 (gs%d f)) (reg_pokes (gs%d f))) (map (kstep f) %s))' % (outs, i, i, i, i, i, i, i, vsteps))
-        term = ('match elaborate dsg%d 200 %s with inl e => inl e | inr f => inr (match_items (its%d f) (gs%d f) (%s) %s f, '
-                'failing (diag (ps%d f) (gs%d f) (%s) %s f), %s%s) end')
+                     '(run_states (%s) (init_poked (%s) %s) (map (kstep f) %s))' % (outs, i, dsg, dsg, st0, vsteps))
+        term = ('match elaborate dsg%d 200 %s with inl e => inl e | inr f => inr (' + ('match_items_s' if S else 'match_items') + ' (its%d f) (gs%d f) (%s) %s f, '
+                'failing (' + ('diag_s' if S else 'diag') + ' (ps%d f) (gs%d f) (%s) %s f), %s%s) end')
         items.append(('m%d' % i, term % (i, vparse.cq_str(mods[0][1]), i, i, clk, insl, i, i, clk, insl, side, extra)))
     if items:
         out = common.coq_eval(tag, '\n'.join(body), items)
